@@ -1,4 +1,5 @@
 \* system contract + user contract, one slot, <= 4 blocks, <= 2 diff entries, no transactions
+\* measured: 15 688 distinct states, ~15 s on 4 workers
 CONSTANTS
   Users = {"c1"}
   Sys = {"sys1"}
